@@ -677,6 +677,7 @@ func gcForall[T any](f func(T) bool) bool { var z T; return f(z) }
 func gcExists[T any](f func(T) bool) bool { var z T; return f(z) }
 func gcAllocated[T any](x T) bool { return true }
 func gcFresh[T any](x T) bool { return true }
+func gcSameRef[T any](a, b T) bool { return false }
 func gcSum[K comparable](m map[K]int64) int64 { var s int64; for _, v := range m { s += v }; return s }
 func gcCard[K comparable, V any](m map[K]V) int { return len(m) }
 func gcHas[K comparable, V any](m map[K]V, k K) bool { _, ok := m[k]; return ok }
